@@ -924,7 +924,7 @@ func hasID(m map[string]any) bool {
 
 var undefinedKinds = []string{"u-lit", "u-lit", "u-obj", "u-arr", "u-null", "u-kwalpha", "u-kwdigits", "u-empty", "u-nulterm",
 	"u-scoped-out", "u-typescoped-out", "u-in-nest", "u-in-reverse", "u-embedded-out", "u-in-named-graph", "u-in-named-graph",
-	"u-aliasword", "u-aliasword", "u-aliasword"}
+	"u-aliasword", "u-aliasword", "u-aliasword", "u-unloadable-ctx", "u-unloadable-ctx"}
 
 // bare words that JSON-LD contexts commonly alias to keywords; injected only where
 // no context of the document defines them: plain undefined terms
@@ -1009,6 +1009,22 @@ func (d *drv) inject(s site, kind string) (dropped [][]any, extra int, ok bool) 
 	case "v-scoped-out":
 		k := []string{"lkin", "lktp"}[r.Intn(2)]
 		return nil, 1, put(k, "vs")
+	case "u-unloadable-ctx":
+		// the value carries its own remote @context that no loader can serve; expansion
+		// never descends into the value of an undefined member, so it must not matter
+		k := d.z()
+		url := []string{"https://unloadable.example/ctx-" + k + ".jsonld", "ipfs://QmUnloadable" + k, "gopher://nowhere.example/" + k}[r.Intn(3)]
+		inner := map[string]any{"@context": url, "name": "x"}
+		var v any
+		switch r.Intn(3) {
+		case 0:
+			v = inner
+		case 1:
+			v = []any{json.Number("1"), inner}
+		default:
+			v = map[string]any{d.z(): map[string]any{d.z(): []any{inner}}}
+		}
+		return [][]any{appendPath(s.path, k)}, 0, put(k, v)
 	case "u-aliasword":
 		var free []string
 		for _, w := range aliasWords {
